@@ -303,9 +303,13 @@ func (h *Harness) Step(a Action) []Mismatch {
 		case 2:
 			e.Desc = "answer to PUBLISH QoS 2"
 			e.Must = []*refcodec.Packet{{Type: refcodec.PUBREC, ID: a.ID}}
-			if _, dup := mc.qos2in[a.ID]; !dup {
-				mc.qos2in[a.ID] = &q2ex{pkt: p}
-				mc.qos2order = append(mc.qos2order, a.ID)
+			// a PUBLISH is a repetition while the exchange with its identifier is open; once that
+			// exchange was completed by PUBCOMP the identifier is free again, even if its message
+			// still waits behind an older exchange: the PUBLISH starts a new exchange then
+			if ex, dup := mc.qos2in[a.ID]; !dup || ex.released {
+				nx := &q2ex{pkt: p}
+				mc.qos2in[a.ID] = nx
+				mc.qos2order = append(mc.qos2order, nx)
 			}
 		}
 	case "pubrel":
@@ -319,16 +323,18 @@ func (h *Harness) Step(a Action) []Mismatch {
 			// the queue of exchanges is a FIFO: an exchange must be handed on once
 			// its PUBREL and those of all exchanges opened earlier are processed; it
 			// may be handed on as soon as its own PUBREL is (never before)
-			for len(mc.qos2order) > 0 && mc.qos2in[mc.qos2order[0]].released {
-				hd := mc.qos2in[mc.qos2order[0]]
-				delete(mc.qos2in, mc.qos2order[0])
+			for len(mc.qos2order) > 0 && mc.qos2order[0].released {
+				hd := mc.qos2order[0]
+				if mc.qos2in[hd.pkt.ID] == hd {
+					delete(mc.qos2in, hd.pkt.ID)
+				}
 				mc.qos2order = mc.qos2order[1:]
 				if !hd.delivered {
 					m.applyRetain(string(hd.pkt.Topic), string(hd.pkt.Payload), 2, hd.pkt.Retain)
 					addDeliveries(exps, m.fanout("route", string(hd.pkt.Topic), string(hd.pkt.Payload), 2, ""))
 				}
 			}
-			if _, still := mc.qos2in[a.ID]; still {
+			if cur, still := mc.qos2in[a.ID]; still && cur == ex {
 				for name, d := range m.fanout("route", string(ex.pkt.Topic), string(ex.pkt.Payload), 2, "") {
 					d.Min = 0
 					d.Tag = ex
